@@ -26,6 +26,9 @@ CHECKS = {
     "C08": ("pairwise boundary monitor (same call with / without one optimisation option) + container-identity walker + input fingerprints",
             "Exploration: results and errors of deserialize/serialize must be identical across no_copy, override_dataclass_constructors, function vs precomputed method, check_type on well-typed values, deserialization pass_through and all 2^5 PassThroughOptions flag sets (after completion with serialization_default); no_copy=False results share no mutable container with the input; inputs are never modified.",
             "Trusted: identity walker and JSON completion of pass-through results; abstains on Any positions (no-sharing clause) and on unions whose alternatives overlap by runtime class (serialization side).", "DESIGN §5 C08"),
+    "C06": ("differential monitor: verdict of deserialize vs an independent JSON Schema validator (jsonschema, draft 2020-12) on the generated deserialization_schema, restricted to the common semantic domain; explanatory defect models for region-wide known findings",
+            "Exploration: for generated (type, options, datum) the real deserialize must accept iff jsonschema validates the datum against the schema generated with the same options (additional_properties, aliaser, all_refs, per-call schema, std conversions); disagreements inside a known-bad region are attributed to the finding only when the explanatory model reproduces the observed outcome exactly.",
+            "Trusted: jsonschema 4.26 validators and meta-schemas; generators keep patterns in the Python/ECMA common subset; data with integer-valued floats / duplicates at set positions / ill-formatted strings at format positions are outside the domain.", "DESIGN §5 C06"),
 }
 PLANNED = {
 }
